@@ -94,10 +94,12 @@ EXTRA = {
     "C06": "The order is measured through solve() with durations that are not a multiple of the step (short last step) and generated minimum step fractions; a third halving decides cases in which both estimates are low.",
     "C07": "Clause after_history: the same identities and the step limit on a model whose grid went through a generated history of extension, re-mesh, automatic adjustment and restoring recorded states. Thorough tier adds the atheris-driven campaign on the transport clauses.",
     "C08": "Thorough tier adds the atheris-driven campaign on the history clause.",
-    "C09": "Clause model_cache: cache settings made on a diffusion model (useCache, setHashSensitivity) followed through clearCache and reset+setup, observed at the logging stub backend (with caching off every node reaches the backend; a node served from the cache has an earlier evaluation within one unit of the configured precision).",
+    "C09": "Clause model_cache: cache settings made on a diffusion model (useCache, setHashSensitivity) followed through clearCache and reset+setup, observed at the logging stub backend (with caching off every node reaches the backend; a node served from the cache has an earlier evaluation within one unit of the configured precision). Clause diffusivity_phase_sequences: diffusivity queries with the phase keyword (absent / matrix / second phase) and removeCache on/off on Fe-Cr-Ni objects with two mobility phases, each answer compared with a cache-free object.",
     "C10": "Two of the ten fields list the elements in an order that is a cyclic rotation of the alphabetical one.",
+    "C11": "The element-order queries draw all four driving-force methods; the phase-order clause includes ternary two-phase scenarios (multicomponent growth path) and judges the permuted run against an envelope from three runs perturbed by a few ulp.",
+    "C01": "A third of the toy binary phases have a precipitate composition that depends on the Gibbs-Thomson energy (size-dependent), judged against the model's own per-edge table like the gamma prime runs.",
     "C12": "Clause model_rcrit_ramp: the growth-sign invariant on temperature ramps, judged against the range of critical radii within maxTempChange of the current temperature; the constant-temperature clause also changes an interfacial/grain-boundary energy, resets and re-runs the same model.",
-    "C13": "The entry clause also sets the final schedule after 1-2 other schedules had been set on the same model; the diffusion clause covers the single-phase and the homogenization model.",
+    "C13": "The entry clause also sets the final schedule after 1-2 other schedules had been set on the same model, and through the typed setters of the parameter object (empty object given to the constructor; the model's own object); the diffusion clause covers the single-phase and the homogenization model.",
     "C14": "The incubation factor is judged against the documented product Z beta exp(-G*/kT).",
     "C15": "Clause setter_history: one ShapeFactor object driven through 2-6 shape / aspect-ratio settings mixing constant and radius-dependent aspect ratios, compared after every setting with the description at the aspect ratio set last.",
     "C17": "With a shared table the same point is re-evaluated under another post-processing mode and read back through computeMobility (cached data must stay unprocessed).",
